@@ -226,6 +226,74 @@ Proof. exact store_before_size_not_atomic. Qed.
 Print Assumptions C05_store_before_size_not_atomic.
 
 (* ---------------------------------------------------------------------------------------------- *)
+(* sessions: schema objects used, changed in place, used again (round 3)                          *)
+
+(* At any point of any session - whatever was validated or appended before, through this or any other
+   schema object - a validation is decided by the object's columns AS THEY ARE THEN (the in-place changes
+   so far applied to its original columns): C05_validate_ok_iff_conforms, C05_excess_checked_first,
+   C05_errors_exact ... therefore speak about the current columns.  Second part: the earlier uses can be
+   erased without changing the outcome - only the changes matter. *)
+Theorem C05_session_validate_uses_current_columns :
+  forall (st : sstate) (pre : list sop) (o : nat) (e : entry),
+  snd (sstep (fst (srun st pre)) (SValidate o e)) =
+    SOVerdict (validate_entry (nth o (objs_after (sobjs st) pre) []) e) /\
+  snd (sstep (fst (srun st pre)) (SValidate o e)) =
+    snd (sstep (fst (srun (mkss (sobjs st) None) (filter is_mutation pre))) (SValidate o e)).
+Proof. intros st pre o e. split; [apply session_validate_current | apply session_uses_do_not_matter]. Qed.
+Print Assumptions C05_session_validate_uses_current_columns.
+
+(* An append at any point of any session validates against its schema object's columns as they are then
+   (the row is built from the field list the frame took when it was made), and a raising append leaves the
+   frame and the whole session state as they were. *)
+Theorem C05_session_append_uses_current_columns :
+  forall (st : sstate) (pre : list sop) (o : nat) (f : frame) (e : entry),
+  sframe (fst (srun st pre)) = Some (o, f) ->
+  snd (sstep (fst (srun st pre)) (SAppend e)) =
+    SOAppend (snd (append_with (nth o (objs_after (sobjs st) pre) []) f e))
+             (fst (append_with (nth o (objs_after (sobjs st) pre) []) f e)) /\
+  (forall x, snd (append_with (nth o (objs_after (sobjs st) pre) []) f e) = ARaise x ->
+             fst (append_with (nth o (objs_after (sobjs st) pre) []) f e) = f /\
+             fst (sstep (fst (srun st pre)) (SAppend e)) = fst (srun st pre)).
+Proof.
+  intros st pre o f e H. split; [apply session_append_current; exact H|].
+  intros x Hx.
+  apply (session_append_atomic (fst (srun st pre)) o f e _ _ H (session_append_current st pre o f e H)).
+  exists x. exact Hx.
+Qed.
+Print Assumptions C05_session_append_uses_current_columns.
+
+(* A frame made from its schema object's present columns ("fresh": no in-place change of that object since)
+   appends exactly like the frames of C05_append_accepts_iff / C05_history; making a frame establishes
+   freshness and every use keeps it - only an in-place change of the schema can end it. *)
+Theorem C05_session_fresh_frame :
+  (forall st o f e, fresh st -> sframe st = Some (o, f) ->
+     sstep st (SAppend e) =
+     (mkss (sobjs st) (Some (o, fst (append f e))), SOAppend (snd (append f e)) (fst (append f e)))) /\
+  (forall st op,
+     match op with
+     | SMutate _ _ => True
+     | SNewFrame _ => fresh (fst (sstep st op))
+     | _ => fresh st -> fresh (fst (sstep st op))
+     end).
+Proof. split; [exact session_fresh_append | exact fresh_step]. Qed.
+Print Assumptions C05_session_fresh_frame.
+
+(* non-vacuity: validate, add a non-nullable VARCHAR column in place, validate the same record again (now the
+   new column is missing), make a frame, append a wrongly typed and a conforming record *)
+Example C05_nonvacuous_session :
+  let a := mkcol 0%N (Some 6%N) false in
+  let b := mkcol 1%N (Some 11%N) false in
+  let r := mkent KDict [(0%N, pv 2%N)] in
+  snd (srun (mkss [[a]] None)
+        [SValidate 0 r; SMutate 0 (MAdd b); SValidate 0 r; SNewFrame 0;
+         SAppend (mkent KDict [(0%N, pv 2%N); (1%N, pv 2%N)]);
+         SAppend (mkent KDict [(1%N, pv 5%N); (0%N, pv 2%N)])]) =
+  [SOVerdict VOk; SOUnit; SOVerdict (VErrors [1%N] [] []); SOUnit;
+   SOAppend (ARaise (AErrors [] [] [(1%N, pv 2%N, 11%N)])) (mkfr (FSchema [a; b]) [] true true);
+   SOAppend AOk (mkfr (FSchema [a; b]) [[pv 2%N; pv 5%N]] true false)].
+Proof. vm_compute. reflexivity. Qed.
+
+(* ---------------------------------------------------------------------------------------------- *)
 (* non-vacuity                                                                                    *)
 
 (* a classed three-column schema (INTEGER not null, VARCHAR, untyped), a conforming record given in another
